@@ -208,7 +208,7 @@ def represent_as(rng, j, T):
     return None
 
 
-ELEM_TYPES = ["any", "any", "int", "float64", "int8", "uint16", "int64", "uint64", "float32", "jnum", "string",
+ELEM_TYPES = ["any", "any", "int", "float64", "int8", "uint16", "uint8", "uint8", "[]uint8", "int64", "uint64", "float32", "jnum", "string",
               "mystring", "bool", "[]any", "[]int", "map[string]any", "*int", "*any", "*string", "myint", "*float64",
               "map[string]int", "[]float64"]
 
